@@ -10,6 +10,7 @@ import (
 	"sort"
 	"strconv"
 	"strings"
+	"unsafe"
 
 	"github.com/snapcore/snapd/asserts"
 )
@@ -247,36 +248,42 @@ func openDBs(u *universe, scratch string) (mem, fs *dbUnderTest, err error) {
 	return &dbUnderTest{name: "memory", db: mdb}, &dbUnderTest{name: "filesystem", db: fdb, dir: dir}, nil
 }
 
-// toSigned maps a returned assertion back to the universe entry with exactly
-// that encoding; anything else is reported as foreign (never seen on the
-// unchanged tree: the stores only hold what was added).
+// lookup maps a returned assertion back to the universe entry with exactly
+// that content and signature (nil when there is none).
+func (u *universe) lookup(a asserts.Assertion) *signed {
+	ref := a.Ref()
+	d := desc{Type: ref.Type.Name, PK: ref.PrimaryKey, Rev: a.Revision(), Format: a.Format(), Variant: -1}
+	if tag, ok := a.Header("tag").(string); ok && len(tag) > 1 {
+		if v, err := strconv.Atoi(tag[1:]); err == nil {
+			d.Variant = v
+		}
+	}
+	if d.Variant >= 0 {
+		u.mu.Lock()
+		s := u.cache[d.key()]
+		u.mu.Unlock()
+		if s != nil && s.is(a) {
+			return s
+		}
+	}
+	for _, f := range u.fixtures {
+		if f.is(a) {
+			return f
+		}
+	}
+	return nil
+}
+
+// toResult turns returned assertions into a comparable result; content the
+// universe does not know (never seen on the unchanged tree: the stores only
+// hold what was added) is identified by its encoding.
 func toResult(u *universe, as []asserts.Assertion) result {
 	var ss []*signed
 	for _, a := range as {
-		enc := string(asserts.Encode(a))
-		ref := a.Ref()
-		d := desc{Type: ref.Type.Name, PK: ref.PrimaryKey, Rev: a.Revision(), Format: a.Format(), Variant: -1}
-		if tag, ok := a.Header("tag").(string); ok && len(tag) > 1 {
-			if v, err := strconv.Atoi(tag[1:]); err == nil {
-				d.Variant = v
-			}
-		}
-		var s *signed
-		if d.Variant >= 0 {
-			u.mu.Lock()
-			s = u.cache[d.key()]
-			u.mu.Unlock()
-		}
-		if s == nil || s.enc != enc {
-			// fixtures (no tag) or unknown content: identify by encoding
-			d.Variant = 0
-			s = &signed{d: d, a: a, enc: enc}
-			for _, f := range append(append(append([]*signed{}, u.trusted...), u.predefined...), u.prereqs...) {
-				if f.enc == enc {
-					s = f
-					break
-				}
-			}
+		s := u.lookup(a)
+		if s == nil {
+			ref := a.Ref()
+			s = &signed{d: desc{Type: ref.Type.Name, PK: ref.PrimaryKey, Rev: a.Revision(), Format: a.Format(), Variant: -1}, a: a, enc: string(asserts.Encode(a))}
 		}
 		ss = append(ss, s)
 	}
@@ -548,6 +555,16 @@ type seqStats struct {
 	onDisk                                                                                        int
 }
 
+// merge adds another worker's counters (every field is an int).
+func (s *seqStats) merge(o seqStats) {
+	const n = unsafe.Sizeof(seqStats{}) / unsafe.Sizeof(int(0))
+	a := (*[n]int)(unsafe.Pointer(s))
+	b := (*[n]int)(unsafe.Pointer(&o))
+	for i := range a {
+		a[i] += b[i]
+	}
+}
+
 type mismatch struct {
 	sig     string
 	witness map[string]interface{}
@@ -630,8 +647,16 @@ func runSeq(u *universe, idx int, ops []seqOp, scratch string, stats *seqStats) 
 		if mm := judge(i, "find", want, got, func(w, g result) string { return lookupSig("find", w, g) }, ctx); mm != nil {
 			return mm
 		}
-		want = m.findMany(s.d.Type, nil)
-		got = [2]result{doFindMany(u, mem, s.d.Type, nil), doFindMany(u, fs, s.d.Type, nil)}
+		// everything of the type every 4th time and at the end of the history,
+		// otherwise the neighbourhood sharing all but the last primary key
+		// (the whole sequence / all provenances of a digest / the series)
+		var nh map[string]string
+		if stats.audits%4 != 0 && i != len(ops)-1 {
+			nh = pkHeaders(s.d.Type, s.d.PK)
+			delete(nh, typeOf(s.d.Type).PrimaryKey[len(s.d.PK)-1])
+		}
+		want = m.findMany(s.d.Type, nh)
+		got = [2]result{doFindMany(u, mem, s.d.Type, nh), doFindMany(u, fs, s.d.Type, nh)}
 		if mm := judge(i, "findmany", want, got, func(w, g result) string { return lookupSig("findmany", w, g) }, ctx); mm != nil {
 			return mm
 		}
